@@ -12,6 +12,7 @@ import (
 	"pgregory.net/rapid"
 
 	"verif/harness"
+	"verif/ref"
 )
 
 // C14 - envelope and options survive the client-to-server trip unchanged.
@@ -280,6 +281,175 @@ func fmtOpts(o *smtp.MailOptions) string {
 	return fmtMailOpts(o)
 }
 
+// ---- addresses put together from pieces ----
+
+type c14AddrCase struct {
+	ServerUTF8 bool   `json:"server_utf8"`
+	From       string `json:"from"`
+	To         string `json:"to"`
+	ClientUTF8 bool   `json:"client_utf8"` // MailOptions.UTF8
+}
+
+// c14AddrRun: whatever sender / recipient string the client API accepts (the
+// call returns nil) is what the backend observes. A string that is a
+// well-formed RFC 5321 mailbox (independent reference grammar) must be
+// accepted.
+func c14AddrRun(c c14AddrCase) Verdict {
+	cfg := harness.Config{UTF8: c.ServerUTF8, DSN: true, RRVS: true, AllowInsecureAuth: true}
+	r := harness.NewRig(cfg, harness.Script{})
+	var mailErr, rcptErr error
+	var mo *smtp.MailOptions
+	if c.ClientUTF8 {
+		mo = &smtp.MailOptions{UTF8: true}
+	}
+	ok := withClient(r, false, func(cl *smtp.Client, w *harness.Wire) {
+		if err := cl.Hello("cli"); err != nil {
+			mailErr = fmt.Errorf("hello: %w", err)
+			return
+		}
+		mailErr = cl.Mail(c.From, mo)
+		if mailErr != nil {
+			// a transaction is needed for the recipient
+			if err := cl.Mail("fallback@x", nil); err != nil {
+				rcptErr = fmt.Errorf("fallback MAIL: %w", err)
+				return
+			}
+		}
+		rcptErr = cl.Rcpt(c.To, nil)
+	})
+	if !ok {
+		return Verdict{Inconclusive: "watchdog in client run"}
+	}
+	if p := r.Log.Panicked(); p != "" {
+		return failf("panic", "server logged a panic: %s", p)
+	}
+	evs := r.B.Events()
+	mails, rcpts := eventsOf(evs, "Mail", true), eventsOf(evs, "Rcpt", true)
+	flags := ref.Flags{UTF8: c.ServerUTF8, DSN: true, RRVS: true}
+	v := Verdict{}
+	judge := func(mail bool, addr string, err error, got []string) *Verdict {
+		what, line := "recipient", "TO:<"+addr+">"
+		if mail {
+			what, line = "sender", "FROM:<"+addr+">"
+			if cfgBody := " BODY=8BITMIME"; true {
+				line += cfgBody // the client adds it when 8BITMIME is offered
+			}
+			if c.ClientUTF8 && c.ServerUTF8 {
+				line += " SMTPUTF8"
+			}
+		}
+		res := ref.Classify(mail, line, flags)
+		wellFormed := res.Class == ref.Valid && len(res.Mailboxes) > 0 && contains(res.Mailboxes, addr)
+		special := strings.ContainsAny(addr, "<> \"\\:,;()[]") || !printable(addr)
+		if special {
+			v.NonTrivial = true
+		}
+		if wellFormed {
+			v.Classes = append(v.Classes, what+"_well_formed")
+		} else {
+			v.Classes = append(v.Classes, what+"_not_a_plain_mailbox")
+		}
+		if bracketOutsideQuotes(addr) {
+			v.Classes = append(v.Classes, what+"_bare_angle_bracket")
+		}
+		if err != nil {
+			if _, isSMTP := err.(*smtp.SMTPError); wellFormed && (isSMTP || true) {
+				if mail && c.ClientUTF8 && !c.ServerUTF8 {
+					return nil // SMTPUTF8 requested but not offered: local error, C15
+				}
+				f := failf("addr-refused", "%s %q is a well-formed mailbox but the call failed: %v", what, addr, err)
+				return &f
+			}
+			return nil
+		}
+		if len(got) != 1 {
+			f := failf("addr-callbacks", "%s %q was accepted but the backend saw %d calls", what, addr, len(got))
+			return &f
+		}
+		// a well-formed path may legitimately arrive in another spelling
+		// (source route ignored, quoted local part unquoted): the reference
+		// grammar lists the acceptable values
+		routeless := addr
+		if i := strings.IndexByte(addr, ':'); strings.HasPrefix(addr, "@") && i >= 0 {
+			routeless = addr[i+1:] // receivers ignore a source route (RFC 5321 4.1.1.3)
+		}
+		okSpellings := []string{addr, routeless}
+		for _, x := range []string{addr, routeless} {
+			if strings.HasPrefix(x, "\"") {
+				okSpellings = append(okSpellings, unquoteLocal(x))
+			}
+		}
+		if res.Class == ref.Valid {
+			okSpellings = append(okSpellings, res.Mailboxes...)
+		}
+		if !contains(okSpellings, got[0]) {
+			f := failf("addr-differs", "%s %q was accepted by the client API but the backend observed %q", what, addr, got[0])
+			return &f
+		}
+		v.Classes = append(v.Classes, what+"_accepted")
+		return nil
+	}
+	var gotFrom, gotTo []string
+	for _, e := range mails {
+		if e.From != "fallback@x" || c.From == "fallback@x" {
+			gotFrom = append(gotFrom, e.From)
+		}
+	}
+	for _, e := range rcpts {
+		gotTo = append(gotTo, e.To)
+	}
+	if strings.HasPrefix(fmt.Sprint(mailErr), "hello:") || strings.HasPrefix(fmt.Sprint(rcptErr), "fallback MAIL:") {
+		return Verdict{Inconclusive: fmt.Sprint(mailErr, rcptErr)}
+	}
+	if bad := judge(true, c.From, mailErr, gotFrom); bad != nil {
+		return *bad
+	}
+	if bad := judge(false, c.To, rcptErr, gotTo); bad != nil {
+		return *bad
+	}
+	return v
+}
+
+// bracketOutsideQuotes reports whether s has a '<' or '>' that is not inside a
+// quoted string.
+func bracketOutsideQuotes(s string) bool {
+	inq := false
+	for i := 0; i < len(s); i++ {
+		switch {
+		case inq && s[i] == '\\' && i+1 < len(s):
+			i++
+		case s[i] == '"':
+			inq = !inq
+		case !inq && (s[i] == '<' || s[i] == '>'):
+			return true
+		}
+	}
+	return false
+}
+
+var c14AddrPieces = []string{"a", "b1", "user", ".", "..", "@", "@", "x.org", "d", "[1.2.3.4]", "[IPv6:::1]", "\"q s\"", "\"a\\\"b\"", "\"a>b\"", "<", ">", " ", "SIZE=1", "ENVID=x",
+	"BODY=8BITMIME", "NOTIFY=NEVER", "SMTPUTF8", ":", ",", "@r1,@r2:", "é", "ü", "用", "\\", "(c)", ";", "+", "=", "-", "_", "!", "%", "\t", "\"", "xn--bcher-kva.example", "bücher.example"}
+
+func c14GenAddr(t *rapid.T, label string) string {
+	switch rapid.IntRange(0, 3).Draw(t, label+"_shape") {
+	case 0:
+		// local@domain from pieces
+		return c14Join(t, label+"_l", 1, 3) + "@" + c14Join(t, label+"_d", 1, 3)
+	case 1:
+		// a well-formed mailbox with something appended behind it
+		return rapid.SampledFrom([]string{"a@b", "user@x.org", "\"q s\"@d"}).Draw(t, label+"_base") + c14Join(t, label+"_tail", 1, 3)
+	}
+	return c14Join(t, label+"_any", 1, 6)
+}
+
+func c14Join(t *rapid.T, label string, lo, hi int) string {
+	var sb strings.Builder
+	for i, n := 0, rapid.IntRange(lo, hi).Draw(t, label+"_n"); i < n; i++ {
+		sb.WriteString(rapid.SampledFrom(c14AddrPieces).Draw(t, label))
+	}
+	return sb.String()
+}
+
 // ---- generators ----
 
 var c14NotifySets = [][]string{nil, {"NEVER"}, {"SUCCESS"}, {"FAILURE"}, {"DELAY"}, {"SUCCESS", "FAILURE"}, {"FAILURE", "SUCCESS"}, {"SUCCESS", "DELAY"}, {"DELAY", "SUCCESS"},
@@ -377,6 +547,7 @@ func c14Single(s string, field int, serverUTF8 bool) c14Case {
 }
 
 var (
+	c14Addr   *subCheck[c14AddrCase]
 	c14Sub    *subCheck[c14Case]
 	c14Scalar *subCheck[c14Case]
 	c14Words  *subCheck[c14Case]
@@ -387,6 +558,7 @@ func init() {
 		c14Sub = newSub("C14", "rapid", c14Run)
 		c14Scalar = newSub("C14", "scalars", c14Run)
 		c14Words = newSub("C14", "words", c14Run)
+		c14Addr = newSub("C14", "addr", c14AddrRun)
 	})
 }
 
@@ -481,4 +653,12 @@ func TestC14(t *testing.T) {
 		return
 	}
 	c14Sub.rapidCheck(t, pickTier(4000, 30000), c14Gen)
+	if t.Failed() {
+		return
+	}
+	c14Addr.rapidCheck(t, pickTier(4000, 30000), func(rt *rapid.T) c14AddrCase {
+		c := c14AddrCase{ServerUTF8: rapid.Bool().Draw(rt, "server_utf8"), From: c14GenAddr(rt, "from"), To: c14GenAddr(rt, "to")}
+		c.ClientUTF8 = c.ServerUTF8 && rapid.Bool().Draw(rt, "client_utf8")
+		return c
+	})
 }
